@@ -324,7 +324,9 @@ def gen_case(world, tier, prop):
                     'policy': crng.choice([{'kind': 'random', 'p': 0.05},
                                            {'kind': 'random', 'p': 0.3},
                                            {'kind': 'pause', 'q': 0.6},
-                                           {'kind': 'pct', 'd': 3, 'horizon': 4000}]),
+                                           {'kind': 'pct', 'd': 3, 'horizon': 4000},
+                                           {'kind': 'hot', 'p': 0.01, 'p_hot': 0.15,
+                                            'hold': 1000, 'novel': 2}]),
                     'sched_seed': world.seed}
     if crng.random() < 0.4:
       case['conc']['import_race'] = True
